@@ -774,6 +774,16 @@ theorem both_strmWrite (h : Both m0 n0 b t k c) : Both m0 n0 b t k c.strmWrite :
   unfold Ctx.strmWrite
   exact both_ite (fun _ => h) fun _ => both_emit _ rfl (fun _ => rfl) h
 
+theorem both_dtlsEstablishClient (h : Both m0 n0 b t k c) : Both m0 n0 b t k c.dtlsEstablishClient := by
+  unfold Ctx.dtlsEstablishClient
+  simp only
+  have h1 := both_popEnv (bupdf! (fun s => { s with state := .handshake }) h)
+  generalize (c.upd fun s => { s with state := .handshake }).popEnv = c1 at h1
+  have h2 : Both m0 n0 b t k (if c1.flag = true then
+      (if c1.doHandshake.ret = -1 then c1.doHandshake.freeEnv true else c1.doHandshake.upd fun s => { s with tls := true }) else c1) :=
+    both_ite (fun _ => both_ite (fun _ => both_freeEnv _ (both_doHandshake h1)) fun _ => bupd! (both_doHandshake h1)) fun _ => h1
+  exact both_ite (fun _ => both_disconnected _ h2) fun _ => h2
+
 /-- one whole event keeps the gate invariant and the ledger -/
 theorem stepCtx_both (s : Sess) (e : Ev) (orc : List Orc) (h : Both m0 n0 false t k { s := s, orc := orc }) :
     Both m0 n0 false t k (s.stepCtx e orc) := by
